@@ -21,6 +21,9 @@ wt = tempfile.mkdtemp(prefix="vf_confirm_")
 os.rmdir(wt)
 res = {"seed": name, "when": time.strftime("%Y-%m-%d %H:%M:%S")}
 HANGING = ("tests/unit/objects/detectors/test_mode.py",)  # hangs in this sandbox on the original tree as well
+# errors on the current (repaired) tree without any seed: its fixture asks for a 33-cell sphere between grid coordinates
+# 30 and 70, which the repaired placement solver reports as a conflicting constraint (DESIGN.md 10.3, C26/C27)
+DESELECT = ("tests/integration/utils/test_plot_material.py::test_plot_material_sphere_slice",)
 try:
     subprocess.run(["git", "-C", "/repo", "worktree", "add", "-q", "--detach", wt, "HEAD"], check=True)
     demo = next(f for f in ("demo.py", "test_demo.py") if os.path.exists(os.path.join(sdir, f)))
@@ -48,7 +51,7 @@ try:
             if mods:
                 env = dict(os.environ, PYTHONPATH=os.path.join(wt, "src"), JAX_PLATFORMS="cpu")
                 try:
-                    t = subprocess.run(["/venv/bin/python", "-m", "pytest", "-q", "-p", "no:cacheprovider", "--timeout=900", *mods], cwd=wt, env=env, capture_output=True, text=True, timeout=5400)
+                    t = subprocess.run(["/venv/bin/python", "-m", "pytest", "-q", "-p", "no:cacheprovider", "--timeout=900", *[f"--deselect={d}" for d in DESELECT], *mods], cwd=wt, env=env, capture_output=True, text=True, timeout=5400)
                     tail = (t.stdout.strip().splitlines() or [""])[-1]
                     res["tests_rc"], res["tests_summary"] = t.returncode, tail
                 except subprocess.TimeoutExpired:
